@@ -23,6 +23,7 @@ type SpyListener struct {
 	n        int
 	closed   bool
 	accepted []*SpyConn
+	errs     []error
 }
 
 // WrapListener returns l wrapped with event logging under name.
@@ -30,8 +31,24 @@ func WrapListener(log *Log, name string, l net.Listener) *SpyListener {
 	return &SpyListener{Listener: l, log: log, name: name}
 }
 
+// InjectAcceptError makes one future Accept call return err without touching the real listener.
+func (l *SpyListener) InjectAcceptError(err error) {
+	l.mu.Lock()
+	l.errs = append(l.errs, err)
+	l.mu.Unlock()
+}
+
 func (l *SpyListener) Accept() (net.Conn, error) {
 	l.log.Point(l.name + ".accept.enter")
+	l.mu.Lock()
+	if len(l.errs) > 0 {
+		err := l.errs[0]
+		l.errs = l.errs[1:]
+		l.mu.Unlock()
+		l.log.Point(l.name + ".accept.return(err)")
+		return nil, err
+	}
+	l.mu.Unlock()
 	c, err := l.Listener.Accept()
 	if err != nil {
 		l.mu.Lock()
